@@ -130,7 +130,9 @@ func (s *Server) Handle(
 	handler report.Handler,
 	queryURR func(map[uint64][]uint32) (map[uint64][]report.USAReport, error),
 ) {
-	s.handler = handler
+	// the server must keep draining its event queue while the PFCP event
+	// loop is busy, or the loop blocks posting timer events to it
+	s.handler = report.NewAsyncHandler(handler)
 	s.queryURR = queryURR
 }
 
